@@ -181,6 +181,7 @@ def check(program: Program, run: Run) -> None:
         "The token-for-token relation between the two renderings is not computed.")
     run.rule("R1 parameterizer inherited at every nested render; no str()-rendered child node")
     run.rule("R2 evaluation order of value-bearing slots == textual order in every renderer skeleton")
+    run.rule("R2b no value-bearing render call is evaluated where its result may be discarded (default argument of a lookup, expression statement)")
     run.rule("R3 value-wrapper constructor arguments and create_param arguments are never Nodes (dominating isinstance guard)")
     run.rule("R4 inline/parameterised branches agree on the alias wrapper; IDX_PLACEHOLDERS total and in dialect style; 1-based numbering after append")
     sites = render_sites(program)
@@ -232,6 +233,25 @@ def check(program: Program, run: Run) -> None:
             run.finding(key, f"in {c.qualname} the slot `{recv_path(b.recv)}` ({b.src[0] if b.src else ''}) is evaluated before `{recv_path(a.recv)}` but printed after it: "
                              f"their values enter the list in the wrong order and positional placeholders bind to the wrong values",
                         where=f"{b.src[2]}:{b.src[1]}" if b.src else "", rule="R2")
+
+    # ---- R2b: a render call that is evaluated records its values; if its text may then be thrown away
+    # (default of a lookup, bare expression statement) the value list has entries no placeholder stands for
+    for c, (skv, ev) in sk.items():
+        for sp, construct, src in getattr(ev, "eager", []):
+            rp = recv_path(sp.recv)
+            if root_attr(rp) in NO_VALUES:
+                continue
+            fn = src[0] if src else c.qualname
+            key = f"C04/evaluated-not-printed:{fn}:{rp}"
+            run.ob("C04/R2b every evaluated value-bearing render is printed", f"{fn}:{rp}", False, detail=construct)
+            if key in seen:
+                continue
+            seen.add(key)
+            run.finding(key, f"{fn} evaluates `{rp}.{sp.method}(ctx)` as the {construct}: the render runs (and appends its values to the "
+                             f"parameter list) even when its text is not used, so placeholders and values no longer correspond",
+                        where=f"{src[2]}:{src[1]}" if src else "", rule="R2b")
+    run.ob("C04/R2b every evaluated value-bearing render is printed", "all renderers (eagerly evaluated defaults, discarded statements)",
+           True, detail=f"{len(sk)} renderers")
 
     # ---- R3
     ws = wrapper_sites(program)
